@@ -1,7 +1,7 @@
 """C01 - recorded snapshots replay cleanly."""
 import core, suites
 from core import World
-from gen import Gen, mode_line, cfg_line
+from gen import Call, Gen, mode_line, cfg_line
 from suites import gen_history, emit_exec, exp_silent, exp_same_fs, run_suite, gen_nest, emit_nested
 
 LEAN_MODULES = ['GoSnaps.Props.C01', 'GoSnaps.Props.C01World', 'GoSnaps.Props.Tie.Path', 'GoSnaps.Props.Tie.Escape']
@@ -125,6 +125,16 @@ def run(ctx):
         worlds.append(build_world(g, 'c01-%d' % i, allow))
     worlds.append(big_file_world(g))
     run_suite(ctx, 'match.replay', worlds, known=known)
+    if not ctx.facts.get('bools', {}).get('scannerUnbounded', True):
+        # the proof obligation source_scanner_unbounded is broken: search for a line the scanner can
+        # no longer read back (implementation only; the model has no limit)
+        for size in (70000, 1 << 20, 17 << 20, 80 << 20):
+            spec = dict(cfgs=[cfg_line(1, 'snaps')], execs=[(b'TestLongLine', [(1, Call('snap', b'small')), (1, Call('snap', b'L' * size + b'\nnext')), (1, Call('snap', b'after'))])],
+                        flags=set(), recmode='', modes=[(True, '')], pre=[], nest={})
+            before = len(ctx.violations)
+            run_suite(ctx, 'match.replay.long-line-%d' % size, [render('c01-longline-%d' % size, spec)], known=known, use_model=False)
+            if len(ctx.violations) > before:
+                break
     findings.report(ctx, 'C01')
 
 
